@@ -19,6 +19,17 @@ PROPS = {
                         "full grammar membership of error-free documents (token ORDER and KINDS inside a production beyond what the min-length bounds imply; only Type is specified exactly, under C07)",
                         "that the syntax tree contains exactly the reference parser's top-level definitions (tree shape is not modelled)", "the reference parser as oracle"],
     },
+    "C14": {
+        "level": "proof",
+        "verus": ["schema_rules", "types"],
+        "explanation": "KERNEL ONLY: two of the type-system validation rules, decided against the specification text rather than against a reference implementation. Verus proves for every input that "
+                       "validate_type_system_name reports exactly the names that start with `__` outside the built-in file (rule 'Reserved Names'), and that validate_implementation_field_types reports exactly the "
+                       "interface fields whose implementing field type is not a valid implementation type (rule IsValidImplementationFieldType over the schema's subtype relation, any nesting of list / non-null), "
+                       "once each and in order. Bodies are re-extracted from /repo on every run.",
+        "assumptions": ["IndexMap / IndexSet / HashMap / HashSet shims; Schema::is_subtype is the schema's subtype relation"],
+        "not_decided": ["the property as stated: agreement of the WHOLE of schema validation with the reference implementation (graphql-js via graphql-core) -- every other rule (root operation types, field / argument / "
+                        "directive definitions, unions, enums, input objects, interface argument contracts, transitive interfaces, cycles) and the documented differences; no oracle exists inside a contract"],
+    },
     "C15": {
         "level": "proof",
         "verus": ["schema_rules", "types"],
